@@ -30,6 +30,8 @@ def main():
         # build the whole Coq development (full .vo build); used by MANIFEST.setup_cmd
         from .common import make_coq
         # tie B: regenerate every Gen/*.v from the sources of the tree under test first
+        from .family import regen_source
+        print(f"source translation (tie C): untranslatable = {regen_source()}")
         for name, chk in sorted(all_checks().items()):
             if getattr(chk, "pre_build", None):
                 print(f"regenerating facts for {name}: {chk.pre_build()}")
